@@ -4,6 +4,8 @@
 //   <cid> DB <seed> <strategy> <choices|-> <setup> <program>             deposit box client programs
 //   <cid> TH <seed> <strategy> <tag> <script>                            thread ids: births / deaths / for_each
 //   <cid> WRAP <pushes> <split>                                          staged version wrap (ABA) on uint16_t
+//   <cid> SEQ <16|32> <n> <freemod>                                      sequential history: n ids live at once (block /
+//                                                                        type-width boundaries), free a pattern, reuse, for_each
 //   setup  : ops executed by one thread alone before the program threads start ("-" = none)
 //   program: threads '|', ops ',':  A allocate | F<i> deallocate the i-th id kept by this thread (newest = 0)
 //            E emplace | T<k> take_released(k-th id handed out by emplace) | R finish_released(oldest taken)
@@ -356,6 +358,49 @@ static void run_wrap(const char* cid, long pushes, int split_points) {
   delete al;
 }
 
+// ------------------------------------------------------------------ sequential bulk histories (for_each exactness)
+// mint n ids, then free every id whose value is a multiple of freemod plus a run of 130 values that crosses a block
+// boundary, then take half of the freed values back, then free the top 130; after every phase for_each must report
+// exactly the values held.  n is chosen around the 128-cell block size and around the capacity at which the 16-bit
+// table is complete (65408 / 65536).
+template <typename T>
+static void run_seq(const char* cid, long n, long freemod) {
+  auto* al = new IdAllocator<T>();
+  std::map<T, VersionedValue<T>> held; bool dup = false, exact = true, reuse_ok = true; std::string trace, fail;
+  auto check = [&](const char* phase) {
+    std::set<T> live, want; bool ok = collect_live<IdAllocator<T>, T>(*al, live);
+    for (auto& kv : held) want.insert(kv.first);
+    trace += std::string(phase) + "=" + std::to_string(live.size()) + ",";
+    if ((!ok || live != want) && exact) {
+      exact = false;
+      fail = std::string(" FAIL@") + phase + ":held=" + std::to_string(want.size()) + ",reported=" + std::to_string(live.size()) + ",end=" + std::to_string((unsigned long)al->end());
+    }
+  };
+  for (long i = 0; i < n; ++i) { auto id = al->allocate(); if (held.count(id.value)) dup = true; held[id.value] = id; }
+  if ((long)al->end() != n) reuse_ok = false;
+  check("full");
+  std::vector<T> freed;
+  long bs = n > 400 ? ((n - 200) / 128) * 128 - 60 : n / 3;
+  for (long v = 0; v < n; ++v)
+    if (held.count((T)v) && ((freemod > 0 && v % freemod == 0) || (v >= bs && v < bs + 130))) { al->deallocate(held[(T)v]); held.erase((T)v); freed.push_back((T)v); }
+  check("freed");
+  std::set<T> fs(freed.begin(), freed.end());
+  for (size_t i = 0; i < freed.size() / 2; ++i) {
+    auto id = al->allocate();
+    if (!fs.count(id.value) || (long)al->end() != n) reuse_ok = false;    // minted although freed values exist
+    if (held.count(id.value)) dup = true;
+    held[id.value] = id;
+  }
+  check("reused");
+  for (long v = n - 1; v >= 0 && v >= n - 130; --v) if (held.count((T)v)) { al->deallocate(held[(T)v]); held.erase((T)v); }
+  check("top-freed");
+  while (!held.empty()) { al->deallocate(held.begin()->second); held.erase(held.begin()); }
+  check("empty");
+  printf("%s ok steps=0 | n=%ld %s%s | unique=%d foreach-exact=%d reuse=%d\n", cid, n, trace.c_str(), fail.c_str(), !dup, exact, reuse_ok);
+  fflush(stdout);
+  delete al;
+}
+
 int main(int argc, char** argv) {
   static char line[1 << 16];
   while (fgets(line, sizeof line, stdin)) {
@@ -372,6 +417,9 @@ int main(int argc, char** argv) {
       if (w[4] == "A") run_threads<ThreadId, TagA>(cid, seed, st, w[5]);
       else if (w[4] == "B") run_threads<LeakyThreadId, TagB>(cid, seed, st, w[5]);
       else run_threads<ThreadId, TagC>(cid, seed, st, w[5]);
+    } else if (w[1] == "SEQ" && w.size() == 5) {
+      if (w[2] == "16") run_seq<uint16_t>(cid, atol(w[3].c_str()), atol(w[4].c_str()));
+      else run_seq<uint32_t>(cid, atol(w[3].c_str()), atol(w[4].c_str()));
     } else if (w[1] == "WRAP" && w.size() == 4) {
       run_wrap(cid, atol(w[2].c_str()), atoi(w[3].c_str()));
     } else {
